@@ -14,8 +14,10 @@ import (
 func TestVerif_C10(t *testing.T) {
 	r := verifrt.Start(t, "C10")
 	defer r.Finish()
-	r.Rule("case = (termination path in {PoisonPill, Kill, PID.Stop by the parent, Kill of the parent, supervisor Stop directive after a panic, time-based passivation, ctx.Shutdown from the watchee's own handler, Restart followed by Kill}, child or top-level watchee, 1-8 watchers drawn from {parent, siblings, unrelated actors}, 1-4 Watch/UnWatch executions each from the watcher's turn or from an external goroutine, r of the watchers running their script concurrently with the termination, optional restart of a settled watcher, GOMAXPROCS, 0-2 hot noise sites in pid.go/pid_tree.go/death_watch.go) on a fresh actor system; oracle = number of Terminated(watchee) each still-running watcher received vs its obligation: exactly 1 per termination when its last execution that ended before the termination began is a Watch, exactly 0 when it is an UnWatch or it never watched, 0 or 1 when an execution overlaps the termination window (window end = stopLocker barrier after PostStop), when only the parent's implicit registration applies or after a watcher restart; never a Terminated for an actor it did not watch; non-trivial = at least one watcher with an exact obligation of 1 and (an execution overlapped a termination window or another watcher has the exact obligation 0); distinct by knob tuple and seed")
+	r.Rule("case = (termination path in {PoisonPill, Kill, PID.Stop by the parent, Kill of the parent, supervisor Stop directive after a panic, time-based passivation, ctx.Shutdown from the watchee's own handler, Restart followed by Kill}, child or top-level watchee, 1-8 watchers drawn from {parent, siblings, unrelated actors}, 1-4 Watch/UnWatch executions each from the watcher's turn or from an external goroutine, r of the watchers running their script concurrently with the termination, optional restart of a settled watcher, GOMAXPROCS, 0-2 hot noise sites in pid.go/pid_tree.go/death_watch.go) on a fresh actor system; oracle = number of Terminated(watchee) each still-running watcher received vs its obligation: exactly 1 per termination when its last execution that ended before the termination began is a Watch, exactly 0 when it is an UnWatch or it never watched, 0 or 1 when an execution overlaps the termination window (window end = stopLocker barrier after PostStop), when only the parent's implicit registration applies in the mixed script or after a watcher restart; a dedicated scenario holds a parent that never unwatches to exactly 1 after 0-3 supervised in-place restarts of the child; never a Terminated for an actor it did not watch; non-trivial = at least one watcher with an exact obligation of 1 and (an execution overlapped a termination window or another watcher has the exact obligation 0); distinct by knob tuple and seed")
 	rng := r.Rand(10)
+	// the parent's implicit registration across supervised in-place restarts: see c10_parent_verif_test.go
+	c10RunParentImplicit(t, r, r.Rand(110), r.N(60, 1200))
 	n := r.N(96, 2400)
 	for i := 0; i < n; i++ {
 		k := c10GenKnobs(rng, i+r.Batch*3)
